@@ -79,7 +79,9 @@ func c09AddrBytes(as []common.Address) [][]byte {
 }
 
 func (g *c09Gen) size() int {
-	switch g.r.Rng.Intn(8) {
+	switch g.r.Rng.Intn(9) {
+	case 8: // small even sets: the window edge floor(N/2) is where `len/2+1` and `(len+1)/2` differ
+		return []int{4, 6, 8}[g.r.Rng.Intn(3)]
 	case 0:
 		return 1
 	case 1:
@@ -668,6 +670,7 @@ func (g *c09Gen) history(p c09Plan) {
 		if num > 1<<32 {
 			r.Count("valid.accepted.large-height")
 		}
+		g.maybeRestart()
 	}
 	g.emit("cons")
 }
@@ -685,6 +688,7 @@ type c09Step struct {
 	time   uint64
 	next   []common.Address
 	reject bool // this step is expected to be refused; the history goes on with the same head
+	restart bool // export + re-import of the hosting chain before this step
 }
 
 func (g *c09Gen) directedKeys(n int) []common.Address {
@@ -731,6 +735,10 @@ func (g *c09Gen) directed(name string, epoch, tp, start uint64, vals []common.Ad
 		if !alive {
 			break
 		}
+		if st.restart {
+			emit("restart")
+		}
+		g.w.sel(0)
 		cs := g.w.clientState(g.w.ctx)
 		pcs := *cs
 		pcs.Validators = g.w.presVals // turn / difficulty by the prescribed set
@@ -947,6 +955,13 @@ func (g *c09Gen) allDirected() {
 	g.directed("epoch-empty-list", 4, 999_999_999, 4, k[:3], k[0], 100, []c09Step{
 		{bt: 103, signer: k[1], time: 103}, {bt: 106, signer: k[2], time: 106}, {bt: 109, signer: k[0], time: 109},
 		{bt: 112, signer: k[1], time: 112, next: nil, reject: true}, {bt: 112, signer: k[1], time: 112, next: k[:3]}})
+	// export + re-import between an epoch header and its switch: 3 validators at 4, epoch header 8 announces five NEW
+	// ones, restart, block 9 (switch offset 3/2 = 1) by an old validator, blocks 10, 11 by new validators
+	g.directed("restart-before-switch", 4, 999_999_999, 4, k[:3], k[0], 100, []c09Step{
+		{bt: 103, signer: k[1], time: 103}, {bt: 106, signer: k[2], time: 106}, {bt: 109, signer: k[0], time: 109},
+		{bt: 112, signer: k[1], time: 112, next: k[3:8]},
+		{bt: 115, signer: k[2], time: 115, restart: true},
+		{bt: 118, signer: k[3], time: 118}, {bt: 121, signer: k[4], time: 121, restart: true}, {bt: 124, signer: k[5], time: 124, next: k[3:8]}})
 	// single validator handing over to a different single validator: the epoch header is itself the switch point
 	g.directed("handover-1to1", 4, 999_999_999, 4, k[:1], k[0], 100, []c09Step{
 		{bt: 103, signer: k[0], time: 103}, {bt: 106, signer: k[0], time: 106}, {bt: 109, signer: k[0], time: 109},
@@ -1176,6 +1191,7 @@ func (g *c09Gen) twin(n0 int, epoch uint64, startK uint64, steps int) {
 		if !good {
 			break
 		}
+		g.maybeRestart()
 	}
 	g.emit("cons")
 	g.emit("cons@1")
@@ -1288,6 +1304,7 @@ func (g *c09Gen) reorg(n0 int, epoch uint64, startK uint64) {
 				break
 			}
 			done++
+			g.maybeRestart()
 		}
 		return done
 	}
@@ -1344,6 +1361,7 @@ func (g *c09Gen) reorg(n0 int, epoch uint64, startK uint64) {
 			return
 		}
 		r.Count("reorg.upgrade." + kind)
+		g.maybeRestart()
 		r.Nontrivial(fmt.Sprintf("reorg %s u-start=%d head-u=%d n=%d", kind, int64(u)-int64(start), headNum-u+0, len(cur)))
 		// branch B: over every occupied height and a little beyond
 		feed(int(headNum-minU64(u, headNum)) + 2 + r.Rng.Intn(4))
@@ -1356,6 +1374,28 @@ func minU64(a, b uint64) uint64 {
 		return a
 	}
 	return b
+}
+
+// maybeRestart: export + re-import of the hosting chain at this point of the history. Likely between an epoch header and
+// its switch (pending list differs from the set in force), right after a switch / an upgrade; rarely elsewhere.
+func (g *c09Gen) maybeRestart() {
+	b := g.w.books[0]
+	if !b.created || b.head == nil {
+		return
+	}
+	num := b.head.Height.RevisionHeight
+	p := 30
+	switch {
+	case !c09SameList(b.lastEpoch, b.presVals) && num%b.epoch < uint64(len(b.presVals)/2):
+		p = 2
+	case b.switchAt != 0 && num == b.switchAt:
+		p = 3
+	case b.upgraded:
+		p = 2
+	}
+	if g.r.Rng.Intn(p) == 0 {
+		g.emit("restart")
+	}
 }
 
 func c09Epochs(r *Rec) uint64 {
@@ -1384,6 +1424,10 @@ func TestC09(t *testing.T) {
 	}
 	g := newC09Gen(r, w)
 	g.allDirected()
+	for j := 0; j < 3; j++ { // creations that must be refused: height 0-0, a head announcing no validators
+		g.history(c09Plan{n0: 3 + j, epoch: 4, tp: 999_999_999, btStep: 3, startK: 0, steps: 1})
+		g.history(c09Plan{n0: 3 + j, epoch: 4, tp: 999_999_999, btStep: 3, startK: 1, emptyHead: true, steps: 1})
+	}
 	hist := 300
 	if r.Tier == "thorough" {
 		hist = 1000
